@@ -359,7 +359,9 @@ def close(R, RID='C15.close', rearm=True):
             continue
         n = [m for m in gc.live_nodes() if m.ast is s][0]
         from .common import otext_full
-        R.ob(RID, 'close time is the session time', 'self.session.session_time' in (U(v), otext_full(R, gc, n, v)),
+        from .common import pfold, subst_locals
+        R.ob(RID, 'close time is the session time', 'self.session.session_time' in (
+            U(v), otext_full(R, gc, n, v), pfold(R, gc.ctx, v), pfold(R, gc.ctx, subst_locals(R, gc, n, v, pure_only=False))),
              'sent_close_time = %s' % U(v),
              func=gq, node=s)
         lits = {(t_, p) for (t_, p, _) in guards_of(gc, n)}
